@@ -46,6 +46,9 @@ type FileSpec struct {
 	// an earlier life (as a File returned by Decode, or encoded before and
 	// edited since, does); Encode documents that it updates them.
 	Stale bool `json:"stale_header_values,omitempty"`
+	// ProfileVer != 0: the File's header carries this profile version (a
+	// File decoded from a device file carries the device's, not the library's)
+	ProfileVer uint16 `json:"profile_version,omitempty"`
 }
 
 // FileOpts steers GenFile.
@@ -290,6 +293,9 @@ func GenFile(d D, o FileOpts) *FileSpec {
 		ft = int(prof.FileTypes[d.Int(0, len(prof.FileTypes)-1, "ftype")])
 	}
 	fs := &FileSpec{Type: ft, HdrCRC: d.Bool("hcrc"), Proto: 0x20, BigEndian: d.Bool("be"), Stale: d.Int(0, 3, "stale") == 0}
+	if d.Int(0, 2, "profver") == 0 {
+		fs.ProfileVer = []uint16{100, 1111, 2078, 2140, 65535, uint16(d.Int(1, 65535, "pv"))}[d.Int(0, 5, "pvsel")]
+	}
 	if d.Chance(25, "v10") {
 		fs.Proto = 0x10
 	}
@@ -397,6 +403,9 @@ func BuildFile(fs *FileSpec) (*fit.File, error) {
 	id := idv.Interface().(fit.FileIdMsg)
 	id.Type = fit.FileType(fs.Type)
 	f.FileId = id
+	if fs.ProfileVer != 0 {
+		f.Header.ProfileVersion = fs.ProfileVer
+	}
 	if fs.Stale {
 		f.Header.CRC = 0x5AA5
 		f.Header.DataSize = 0x00C0FFEE
